@@ -34,25 +34,31 @@ MANIFEST = dict(
               "into the real pool classes with the fake DBAPI's fault plan dictated by the edge")
 
 INVS = ["NoLeak", "LedgerOK", "AbandonedOnlyDocumented", "CountOK", "OpenBound", "IdleBound", "Distinct"]
-PROPS = ["NoStale", "FailedCheckoutClean", "NoSpuriousError", "TimeoutOnlyAtLimit"]
+PROPS = ["NoStale", "FailedCheckoutClean", "NoSpuriousError", "TimeoutOnlyAtLimit", "ReleaseRaisesOnlyInjected", "ReleaseAlwaysReleases"]
+BASE = ("fullclose", "reset")
 ALLF = ("connect", "ping", "rollback", "commit", "close")
 
 
 def conf(label, kind="queue", size=1, maxo=1, lifo=False, preping=False, recycle=False, reset="rollback", async_=False, ck=(), faults=ALLF,
-         maxh=3, maxlive=None, maxconn=8, depth=6, real=None):
+         maxh=3, maxlive=None, maxconn=8, depth=6, real=None, base=(), close_listener=False):
     if maxlive is None:
         maxlive = size + (0 if maxo == 9 else maxo) + 1 if kind == "queue" else (1 if kind in ("static", "singleton") else 2)
     q = tlc.q
     consts = dict(Kind=q(kind), Size=size, MaxO=maxo, Lifo=lifo, PrePing=preping, Recycle=recycle, ResetOn=q(reset), Async=async_,
-                  CkEvents={q(x) for x in ck}, FaultCalls={q(x) for x in faults}, MaxH=maxh, MaxLive=maxlive, MaxConn=maxconn, MaxDepth=depth)
-    drv = dict(kind=real or kind, size=size, maxo=maxo, lifo=lifo, preping=preping, recycle=recycle, reset=reset, async_=async_, ck=list(ck))
+                  CkEvents={q(x) for x in ck}, FaultCalls={q(x) for x in faults}, BaseFaults={q(x) for x in base}, CloseListener=close_listener,
+                  MaxH=maxh, MaxLive=maxlive, MaxConn=maxconn, MaxDepth=depth)
+    drv = dict(kind=real or kind, size=size, maxo=maxo, lifo=lifo, preping=preping, recycle=recycle, reset=reset, async_=async_, ck=list(ck),
+               close_listener=close_listener)
     return dict(label=label, consts=consts, drv=drv, depth=depth)
 
 
 def configs(quick):
     if quick:
         return [
-            conf("QueuePool size1 maxo1 pre_ping recycle rollback, faults at every call", preping=True, recycle=True, depth=7),
+            conf("QueuePool size1 maxo1 pre_ping recycle rollback, faults at every call + BaseException at full-queue close and reset",
+                 preping=True, recycle=True, depth=7, base=BASE),
+            conf("QueuePool size1 maxo1 with a raising `close` listener + BaseException at full-queue close, connect/close faults",
+                 faults=("connect", "close"), base=("fullclose",), close_listener=True, depth=6),
             conf("QueuePool size2 maxo0 LIFO, checkout listener ok/disc/invpool, connect faults", size=2, maxo=0, lifo=True,
                  ck=("ok", "disc", "invpool"), faults=("connect",), depth=5),
             conf("QueuePool size1 maxo1 pre_ping + listener ok/err/disc, connect+ping faults", preping=True, ck=("ok", "err", "disc"),
@@ -66,7 +72,14 @@ def configs(quick):
         ]
     return [
         conf("QueuePool size1 maxo1 pre_ping recycle rollback, faults at every call", preping=True, recycle=True, depth=9, maxh=4, maxconn=10),
-        conf("QueuePool size2 maxo1 FIFO recycle, faults at every call", size=2, maxo=1, recycle=True, depth=7, maxh=4, maxconn=9),
+        conf("QueuePool size1 maxo1 pre_ping recycle rollback, faults at every call + BaseException at full-queue close and reset",
+             preping=True, recycle=True, depth=8, base=BASE),
+        conf("QueuePool size1 maxo1 with a raising `close` listener + BaseException at full-queue close and reset, faults at every call",
+             base=BASE, close_listener=True, depth=7),
+        conf("QueuePool size1 maxo2 reset commit, BaseException at full-queue close and reset", maxo=2, reset="commit", base=BASE,
+             faults=("connect", "commit", "close"), depth=7, maxh=4, maxconn=9),
+        conf("QueuePool size2 maxo1 FIFO recycle, faults at every call + BaseException at full-queue close", size=2, maxo=1, recycle=True,
+             depth=7, maxh=4, maxconn=9, base=("fullclose",)),
         conf("QueuePool size2 maxo0 LIFO, checkout listener ok/disc/invpool, connect faults", size=2, maxo=0, lifo=True,
              ck=("ok", "disc", "invpool"), faults=("connect",), depth=7),
         conf("QueuePool size1 maxo1 pre_ping + listener ok/err/disc/invpool, faults at every call", preping=True,
@@ -116,9 +129,11 @@ def main(chk):
             a = e[1]
             k = a["a"] + ":" + a["ret"] + (":soft" if a["soft"] else "")
             cov[k] = cov.get(k, 0) + 1
-            failed = [n for n, f in zip(a["calls"], a["plan"]) if f]
-            for n in failed:
-                fault_cov[n] = fault_cov.get(n, 0) + 1
+            failed = [n for n, f in zip(a["calls"], a["plan"]) if f != "ok"]
+            for n, f in zip(a["calls"], a["plan"]):
+                if f != "ok":
+                    k2 = n if f == "fail" else n + ":" + f
+                    fault_cov[k2] = fault_cov.get(k2, 0) + 1
             for o in a["evs"]:
                 ev_cov[o] = ev_cov.get(o, 0) + 1
             if failed or any(o != "ok" for o in a["evs"]) or a["a"] in ("Invalidate", "PoolInvalidate", "Drop", "Sleep"):
@@ -137,7 +152,7 @@ def main(chk):
             chk.machinery("tour planner left %d edges of %s uncovered" % (plan["edges"] - plan["edges_covered"], c["label"]))
         for m in mism:
             a = m["act"] if isinstance(m["act"], dict) else {"a": m["act"], "ret": None}
-            failed = [n for n, f in zip(a.get("calls", []), a.get("plan", [])) if f]
+            failed = [n + ("" if f == "fail" else ":" + f) for n, f in zip(a.get("calls", []), a.get("plan", [])) if f != "ok"]
             chk.violation({"spec": "PoolSeq", "action": a["a"], "ret": a.get("ret"), "kind": "conformance", "impl": drv["kind"],
                            "failed_calls": ",".join(failed), "listener": ",".join(a.get("evs", [])), "config": c["label"]},
                           "real %s diverges from PoolSeq.tla at %s: %s" % (drv["kind"], a["a"], m["mismatch"]), dict(m, config=c))
@@ -146,7 +161,8 @@ def main(chk):
             samples.append({"config": c["label"],
                             "walk": ["%s(h%d)%s plan=%s evs=%s -> %s%s" % (
                                 g.edges[ei][1]["a"], g.edges[ei][1]["h"], " soft" if g.edges[ei][1]["soft"] else "",
-                                "".join("F" if f else "." for f in g.edges[ei][1]["plan"]), ",".join(g.edges[ei][1]["evs"]),
+                                "".join({"ok": ".", "fail": "F", "base": "B", "raise": "R"}[f] for f in g.edges[ei][1]["plan"]),
+                                ",".join(g.edges[ei][1]["evs"]),
                                 g.edges[ei][1]["ret"], (" conn %d" % g.edges[ei][1]["conn"]) if g.edges[ei][1]["conn"] else "") for ei in w]})
     # vacuity: the footprint of the property occurs on edges
     need = ["Checkout:ok", "Checkout:Error", "Checkout:TimeoutError", "Checkout:InvalidRequestError", "Close:ok", "Drop:ok", "Invalidate:ok",
@@ -154,9 +170,12 @@ def main(chk):
     for k in need:
         if not cov.get(k):
             chk.machinery("vacuous: no edge %s" % k)
-    for k in ALLF:
+    for k in ALLF + ("close:base", "rollback:base", "lclose:raise"):
         if not fault_cov.get(k):
             chk.machinery("vacuous: no edge with a failing %s" % k)
+    for k in ("Close:Base", "Close:Error", "Drop:unraisable"):
+        if not cov.get(k):
+            chk.machinery("vacuous: no edge %s (exception escaping from a release)" % k)
     for k in ("disc", "invpool", "err"):
         if not ev_cov.get(k):
             chk.machinery("vacuous: no edge with checkout-listener outcome %s" % k)
